@@ -12,6 +12,12 @@ Oracle: a copy is accepted when `alias=0`, `src=1` and it is equal in Go's sense
 (`shape=1`). The second disjunct is what judges sources holding a NaN (a float leaf, or a key of a float-keyed map):
 for those Go's equality says false even for a perfect copy (and for the source against itself), so `eq` alone could
 not tell a lost entry from a faithful one; the first disjunct alone accepts a copy that turned -0 into +0.
+deepcopyk / clonek = the same calls on types that hold a map with POINTER keys. These are UNMODELLED: the typing of
+the Lean models demands pointer-free map keys (Go's == on pointer keys is identity; Equal / Compare / Hash on such maps
+are known finding F87), so there is no model answer and no theorem for them; they are judged on the emitted code alone:
+`shape=1` (rt.ShapeEqual pairs the entries by the shape of the key's pointee), `alias=0` (the memory reached through
+the keys takes part in the overlap test) and `src=1`. reflect.DeepEqual is not consulted there: a correct copy has fresh
+key pointers and is not DeepEqual to its source.
 deepcopyx = calls outside the precondition (nil source; top-level map into a populated map that shares keys with the
 source): correspondence only."""
 import re
@@ -22,6 +28,7 @@ PLUGINS = ["deepcopy", "clone"]
 OPS = {"deepcopy", "deepcopyx", "clone"}
 
 _FLT = re.compile(r"(\()?\(f (32|64) (\d+)\)")
+_PP = re.compile(r"\(p \d+ \(p \d+ ")
 _CPX = re.compile(r"\(c (32|64) (\d+) (\d+)\)")
 
 
@@ -67,7 +74,7 @@ def nan_profile(src):
 
 class Counter:
     def __init__(self):
-        self.n = {"nan_key_sources": 0, "nan_leaf_sources": 0, "populated_prior_map_ops": 0,
+        self.n = {"nan_key_sources": 0, "nan_leaf_sources": 0, "ptr_to_ptr_below_top_sources": 0, "populated_prior_map_ops": 0,
                   "populated_prior_map_ops_with_nan_keys": 0, "accepted_equal": 0, "accepted_by_shape_only": 0,
                   "property_ops": 0}
 
@@ -84,6 +91,8 @@ class Counter:
             self.n["property_ops"] += 1
             self.n["nan_key_sources"] += key
             self.n["nan_leaf_sources"] += leaf
+            # both levels of a pointer to a pointer non-nil, not at the top of the value
+            self.n["ptr_to_ptr_below_top_sources"] += bool(_PP.search(src, 1))
             kv = answer_fields(impl)
             if kv.get("eq") == "1":
                 self.n["accepted_equal"] += 1
@@ -101,6 +110,37 @@ def oracle(f, impl):
     return kv.get("alias") == "0" and kv.get("src") == "1" and (kv.get("eq") == "1" or kv.get("shape") == "1")
 
 
+def keyed_ops(rep, info):
+    """ops on pointer-keyed maps: no model; the oracle is shape=1, alias=0, src=1 on the implementation's answer"""
+    import os
+    cdir = info["dir"]
+    n = bad = 0
+    if info.get("goderive_rc") != 0 or info.get("build_rc") != 0:
+        return 0
+    with open(os.path.join(cdir, "ops.txt")) as fo, open(os.path.join(cdir, "impl.txt")) as fi, \
+            open(os.path.join(cdir, "model.txt")) as fm:
+        for op, li, lm in zip(fo, fi, fm):
+            f = op.split(" ", 4)
+            if f[2] not in ("deepcopyk", "clonek"):
+                continue
+            n += 1
+            i1, di = common.parse_kv(li)
+            i2, dm = common.parse_kv(lm)
+            if i1 != f[1] or i2 != f[1] or dm.get("model") != "unmodelled":
+                raise common.CheckError("line protocol out of step at op %s (%s / %s)" % (f[1], li.strip()[:80], lm.strip()[:80]))
+            impl = di.get("impl")
+            kv = answer_fields(impl)
+            if not (kv.get("shape") == "1" and kv.get("alias") == "0" and kv.get("src") == "1"):
+                bad += 1
+                if bad <= 3:
+                    rep.violation("copy of a value with a pointer-keyed map is not an independent copy of the same shape "
+                                  "(shape=%s alias=%s src=%s; unmodelled, judged on the emitted code): impl=%s on %s" % (
+                                      kv.get("shape"), kv.get("alias"), kv.get("src"), impl, op.strip()[:300]),
+                                  {"corpus_seed": rep.seed, "op": op.strip(), "impl": impl,
+                                   "types": os.path.join(cdir, "prelude.txt")}, True)
+    return n
+
+
 def run(rep):
     rep.cov["rule"] = ("every pointer / slice / map type of the corpus that plugin/deepcopy supports x every pool source (and "
                        "single-position mutations) x prior destinations (pointer to zero and to populated values, also with NaN keys "
@@ -110,9 +150,11 @@ def run(rep):
                        "three kinds of sources; deepcopyx (correspondence only): nil sources, and top-level maps copied into "
                        "populated maps that share keys with the source (also with NaN keys on both sides); "
                        "distinct = distinct op lines with a non-nil container")
-    rep.assumptions += ["user-declared DeepCopy methods in the corpus (UD, UDM, UDS) are written to copy exactly as the derived function does: the generator's dispatch to them is exercised, their bodies are not modelled", "map keys are pointer-free (the property's 'value keys')",
+    rep.assumptions += ["user-declared DeepCopy methods in the corpus (UD, UDM, UDS) are written to copy exactly as the derived function does: the generator's dispatch to them is exercised, their bodies are not modelled", "map keys are pointer-free (the property's 'value keys') in the modelled part of the corpus",
                         "'source unchanged' cannot fail in a functional model and is carried by the tie",
                         "slices of zero-size elements are excluded (no observable backing-array identity)",
+                        "maps with pointer keys (or keys holding pointers) are outside the Lean models and theorems: the ops on them "
+                        "(deepcopyk, clonek) are judged on the emitted code alone (coverage.unmodelled)",
                         "'equal' is read as: equal in Go's sense (reflect.DeepEqual / Spec.structEq) OR of the same shape and bits "
                         "(rt.ShapeEqual / Spec.shapeEq); the second reading judges sources that hold a NaN leaf or a NaN map key, "
                         "which are not equal to themselves in Go's sense; a copy that differs from the source only by the sign of "
@@ -123,9 +165,15 @@ def run(rep):
     cnt = Counter()
     common.compare_corpus(rep, info, OPS, nontrivial=cnt.nontrivial, oracle=oracle, corr_only=("deepcopyx",))
     rep.cov.update(cnt.n)
+    rep.cov["unmodelled"] = {"pointer_keyed_map_ops": keyed_ops(rep, info),
+                             "pointer_keyed_map_types": info["stats"].get("c05:pointer-keyed-types", 0),
+                             "why": "Lean typing (U/Typing hasType) admits pointer-free map keys only; judged on the Go side: "
+                                    "shape=1, alias=0 (key pointees included), src=1"}
     # the corpus generator is expected to produce each of these kinds for every seed: an empty class means the check
     # did not test what it claims
-    for k in ("nan_key_sources", "nan_leaf_sources", "populated_prior_map_ops", "accepted_by_shape_only"):
+    if not rep.cov["unmodelled"]["pointer_keyed_map_ops"] and not rep.violations:
+        raise common.CheckError("the corpus holds no op on a pointer-keyed map")
+    for k in ("nan_key_sources", "nan_leaf_sources", "ptr_to_ptr_below_top_sources", "populated_prior_map_ops", "accepted_by_shape_only"):
         if not cnt.n[k] and not rep.violations:
             raise common.CheckError("the corpus holds no op of the kind %s" % k)
 
